@@ -251,19 +251,23 @@ def dispatch(eng: Engine, ctx: Ctx, rid: str) -> int:
     # symbolic identity: lookups never raise
     se = eng.symeval(sel.qualname)
     tabs = {id(t): name for name, t in T.tables.items()}
+    from .util import leaves as _leaves
+
     for e in se.effects:
         if e.kind != "return":
             continue
         n += 1
-        t = e.term
-        good = False
-        if is_const(t) and t[1] is None:
-            good = True
-        elif t[0] == "call" and t[2][0] == "attr" and t[2][2] == "get" and t[2][1][0] == "gval" and id(t[2][1][1].v) in tabs:
-            args = t[3]
-            dflt = args[1] if len(args) > 1 else dict(t[4]).get("default", ("const", None))
-            good = len(args) >= 1 and is_const(dflt) and dflt[1] is None
-        ctx.check(good, rid, sel.qualname, norm(e.node), expected="TABLE.get(identity, None) or None", found=show(t)[:100], **eng.loc(sel, e.node))
+        for _, t in _leaves(e.term):
+            good = False
+            if is_const(t) and t[1] is None:
+                good = True
+            elif t[0] == "call" and t[2][0] == "attr" and t[2][2] == "get":
+                # the receiver may be a table chosen by earlier branches: every alternative must be one of the definition tables
+                recvs = [r for _, r in _leaves(t[2][1])]
+                args = t[3]
+                dflt = args[1] if len(args) > 1 else dict(t[4]).get("default", ("const", None))
+                good = all(r[0] == "gval" and id(r[1].v) in tabs for r in recvs) and len(args) >= 1 and is_const(dflt) and dflt[1] is None
+            ctx.check(good, rid, sel.qualname, norm(e.node), expected="TABLE.get(identity, None) or None", found=show(t)[:100], **eng.loc(sel, e.node))
     for e in se.effects:
         if e.kind == "raise":
             n += 1
